@@ -485,7 +485,7 @@ class Engine:
             return g
         if n.id in self.model.global_calls:
             return FuncRef(n.id)
-        if n.id in ("min", "max", "divmod", "len", "range", "int", "bool", "abs", "isinstance", "hasattr", "getattr", "bytes", "bytearray"):
+        if n.id in ("min", "max", "divmod", "len", "range", "int", "bool", "abs", "isinstance", "hasattr", "getattr", "bytes", "bytearray", "memoryview"):
             return FuncRef(n.id)
         if getattr(self.model, "gate_mode", False):
             return OpaqueV(f"name:{n.id}")
@@ -804,6 +804,11 @@ class Engine:
         b = self.ev_guarded(n.orelse, st, z3.Not(c))
         return self.merge(c, a, b, n)
 
+    def ev_Dict(self, n, st):
+        if not n.keys:
+            return OpaqueV("dict")  # a fresh empty dict: stores into it are outside what the contracts read unless the model hooks them
+        raise Unsupported(f"dict literal@{n.lineno}")
+
     def ev_Lambda(self, n, st):
         return LambdaV(n)
 
@@ -911,6 +916,8 @@ class Engine:
                 return NoneV()
             if isinstance(recv, OpaqueV):
                 return OpaqueV(recv.tag + "()")
+            if isinstance(recv, BytesV) and f.name == "tobytes" and not args and not kwargs:
+                return recv
             if isinstance(recv, StrV) and f.name == "encode" and not args and not kwargs:
                 return const_bytes(recv.s.encode())
             if isinstance(recv, BytesV) and f.name == "decode":
@@ -920,6 +927,7 @@ class Engine:
                     self.may_raise("UnicodeDecodeError", st, dec_ok, n)
                 o = OpaqueV("str")
                 o.memo[("decoded_from",)] = recv  # ghost: which bytes this text was decoded from
+                o.memo[("codec",)] = args[0].s if args and isinstance(args[0], StrV) else ("utf-8" if not args else "?")
                 return o
             if isinstance(recv, ListV) and f.name == "append":
                 tgt = n.func.value
@@ -944,6 +952,8 @@ class Engine:
                     if isinstance(lst, ListV):
                         return lst.joined
                 raise Unsupported(f"join@{n.lineno}")
+        if isinstance(f, ObjV) and self.model.is_method(f.path, "__call__"):
+            return self.model.call(self, st, f.path, "__call__", args, n, **kwargs)
         if isinstance(f, OpaqueV) and not n.args and not n.keywords:
             if ("call0",) not in f.memo:  # a zero-argument call on an unknown value: one (memoised) unknown result
                 f.memo[("call0",)] = OpaqueV(f.tag + "()")
@@ -975,6 +985,8 @@ class Engine:
                 return IntV(z3.IntVal(len(a.items)))
             if isinstance(a, ObjV):
                 return self.model.len_(self, st, a.path, n)
+            if isinstance(a, BoundMethod) and isinstance(a.recv, ObjV) and f"{a.recv.path}.{a.name}" in self.model.lens:
+                return self.model.len_(self, st, f"{a.recv.path}.{a.name}", n)  # len(<struct type>) of a type that is also callable
             if getattr(self.model, "gate_mode", False):
                 if isinstance(a, BoundMethod) and isinstance(a.recv, ObjV):
                     stt = self.model.struct_type(a.recv.path, a.name)
@@ -989,7 +1001,7 @@ class Engine:
             return BoolV(self.truthy(args[0]))
         if name == "int" and len(args) == 1 and isinstance(args[0], (IntV, BoolV)):
             return IntV(self.as_int(args[0], st, n))
-        if name in ("bytes", "bytearray") and len(args) == 1 and isinstance(args[0], BytesV):
+        if name in ("bytes", "bytearray", "memoryview") and len(args) == 1 and isinstance(args[0], BytesV):
             return args[0]  # copy of an immutable model value
         if name == "bytearray" and len(args) == 1 and isinstance(args[0], (IntV, OptV)):
             cnt = self.as_int(args[0], st, n)
